@@ -42,7 +42,7 @@ def str_source(contents, env):
 # ---------------------------------------------------------------------------------------------
 # The main program, in process
 # ---------------------------------------------------------------------------------------------
-def main_program(sandbox_root, mem_buff_size=None):
+def main_program(sandbox_root, mem_buff_size=None, on_create=None):
     """A MainProgram exactly like default_main_program() but creating sandboxes under sandbox_root."""
     import io
     from exactly_lib.cli import main_program as mp
@@ -55,7 +55,10 @@ def main_program(sandbox_root, mem_buff_size=None):
     from exactly_lib.processing.parse.act_phase_source_parser import ActPhaseParser
 
     def mk():
-        return tempfile.mkdtemp(prefix='exactly-', dir=sandbox_root)
+        d = tempfile.mkdtemp(prefix='exactly-', dir=sandbox_root)
+        if on_create is not None:
+            on_create(d)
+        return d
 
     return mp.MainProgram(test_case_handling_setup.setup(), mk,
                           TestCaseDefinitionForMainProgram(
